@@ -97,8 +97,21 @@ def sig(prop, l):
     return None
 
 
+def corrupt(l):
+    """binding self-test: shift the reported current root (rotations) or de-trust the node's chains (enrolments)"""
+    if l["op"]["op"] == "Rotate":
+        l["post"]["cur"]["nb"] += 5000
+        l["ret"]["cur"]["nb"] += 5000
+        l["post"]["cur"]["id"] += 50
+        l["ret"]["cur"]["id"] += 50
+    else:
+        for c in l["chains"]:
+            c["issuer"] = 99
+
+
 def family_for(prop):
     return dict(
+        corrupt=corrupt,
         driver="roots",
         trace_module="RootsTrace.tla",
         trace_consts={},
